@@ -4,11 +4,11 @@ SPEC = {
     "level": "exploration",
     "units": [
         {"name": "lockstep", "pkg": O4, "kind": "rapid", "run": "^TestVerifC01Lockstep$",
-         "quick": {"checks": 500, "shards": 4, "timeout": 300},
+         "quick": {"checks": 700, "shards": 8, "timeout": 300},
          "thorough": {"checks": 1500, "shards": 16, "timeout": 3000}},
         {"name": "free", "pkg": O4, "kind": "rapid", "run": "^TestVerifC01FreeRunning$",
          "common": {"shrinktime": "1s"},
-         "quick": {"checks": 40, "shards": 2, "timeout": 300},
+         "quick": {"checks": 60, "shards": 4, "timeout": 300},
          "thorough": {"checks": 400, "shards": 8, "timeout": 1500, "race": True}},
         {"name": "fuzz-lockstep", "pkg": O4, "kind": "fuzz", "fuzz": "FuzzVerifC01Lockstep", "tiers": ("thorough",),
          "thorough": {"fuzztime": "120s", "timeout": 600}},
